@@ -23,18 +23,18 @@ type Runner func(prop string, seed uint64, idx int, tier string, replayDir strin
 
 // Spec describes one property check.
 type Spec struct {
-	Prop        string
-	Run         Runner
-	Quick       int // number of cases
-	Thorough    int
-	Batch       int // cases per worker process
-	Race        bool // worker needs the -race binary
-	RaceThorough bool
-	Rule        string
-	Assumptions []string
+	Prop            string
+	Run             Runner
+	Quick           int // number of cases
+	Thorough        int
+	Batch           int  // cases per worker process
+	Race            bool // worker needs the -race binary
+	RaceThorough    bool
+	Rule            string
+	Assumptions     []string
 	TimeoutPerBatch time.Duration
-	Env         []string
-	MaxProcs    int
+	Env             []string
+	MaxProcs        int
 }
 
 var Specs = map[string]*Spec{}
@@ -128,8 +128,8 @@ type caseLine struct {
 }
 
 type batchResult struct {
-	lines   []caseLine
-	crashed []int  // case indexes that killed the worker
+	lines    []caseLine
+	crashed  []int // case indexes that killed the worker
 	crashLog map[int]string
 	timedOut []int
 }
@@ -332,9 +332,18 @@ func Check(prop, tier string, casesOverride int, jobs int) int {
 					continue
 				}
 			}
-			// a crash of the worker outside C13 is inconclusive for this property (C13 owns "never panics")
+			// a crash of the worker outside C13 is inconclusive for this property (C13 owns "never panics"), unless the
+			// core panicked inside one of the files the property is anchored in: then the mechanism the property is
+			// about did not complete, on a history the property quantifies over
 			p := filepath.Join(replayDir, fmt.Sprintf("%s-crash-%x.txt", prop, seed))
 			_ = os.WriteFile(p, []byte(br.crashLog[idx]), 0o644)
+			if fn, file, ok := anchoredPanic(prop, br.crashLog[idx]); ok {
+				sig := fmt.Sprintf("%s/core-panic/%s@crash", prop, fn)
+				lines = append(lines, caseLine{Idx: idx, CaseResult: det.CaseResult{Prop: prop, Seed: seed, Replay: p,
+					Violations: []det.Violation{{Prop: prop, Rule: "core-panic", Signature: sig, Op: "crash",
+						Text: "the core panicked in " + fn + " (" + file + "), a file this property is anchored in; re-run the case with: vrun debugcase " + prop + fmt.Sprintf(" %d %d", idx, idx+1)}}}})
+				continue
+			}
 			lines = append(lines, caseLine{Idx: idx, CaseResult: det.CaseResult{Prop: prop, Seed: seed, Inconclusive: "worker process died (see " + p + ")"}})
 		}
 		for _, idx := range br.timedOut {
@@ -424,15 +433,15 @@ func Check(prop, tier string, casesOverride int, jobs int) int {
 	}
 	wall := time.Since(start).Seconds()
 	cov := map[string]interface{}{
-		"evaluations":         evaluations,
-		"distinct_nontrivial": len(distinct),
-		"rule":                spec.Rule,
-		"samples":             samples,
-		"observed":            obs,
-		"inconclusive":        inconclusive,
-		"inconclusive_reasons": inconcReasons,
-		"known_findings_hit":  knownHit,
-		"violation_signatures": sigs,
+		"evaluations":                         evaluations,
+		"distinct_nontrivial":                 len(distinct),
+		"rule":                                spec.Rule,
+		"samples":                             samples,
+		"observed":                            obs,
+		"inconclusive":                        inconclusive,
+		"inconclusive_reasons":                inconcReasons,
+		"known_findings_hit":                  knownHit,
+		"violation_signatures":                sigs,
 		"violations_of_other_properties_seen": otherProps,
 		"violations_discarded_as_tainted_by_known_finding_of_other_property": tainted,
 		"diagnostics": map[string]interface{}{},
@@ -501,7 +510,6 @@ func Replay(prop, path string) int {
 	return 2
 }
 
-
 // globMatch: '*' in the pattern matches any (possibly empty) run of characters.
 func globMatch(pat, s string) bool {
 	if pat == "" {
@@ -520,7 +528,6 @@ func globMatch(pat, s string) bool {
 	}
 	return globMatch(pat[1:], s[1:])
 }
-
 
 type caseReplay struct {
 	Property   string          `json:"property"`
@@ -546,4 +553,54 @@ func writeCaseReplay(dir, prop, tier string, cl caseLine) string {
 		return ""
 	}
 	return path
+}
+
+// anchoredPanic reports whether the crash output holds a Go panic whose first core frame lies in a file listed in the
+// anchors of the property (properties.jsonl). Returns the function and the file of that frame.
+func anchoredPanic(prop, out string) (string, string, bool) {
+	if !strings.Contains(out, "panic:") && !strings.Contains(out, "fatal error:") {
+		return "", "", false
+	}
+	anchors := map[string]bool{}
+	if f, err := os.Open(filepath.Join(verifDir(), "properties.jsonl")); err == nil {
+		sc := bufio.NewScanner(f)
+		sc.Buffer(make([]byte, 1<<20), 1<<24)
+		for sc.Scan() {
+			var pr struct {
+				ID      string `json:"id"`
+				Anchors struct {
+					Files []string `json:"files"`
+				} `json:"anchors"`
+			}
+			if json.Unmarshal(sc.Bytes(), &pr) == nil && pr.ID == prop {
+				for _, a := range pr.Anchors.Files {
+					anchors[a] = true
+				}
+			}
+		}
+		f.Close()
+	}
+	after := out
+	if i := strings.Index(after, "[running]:"); i >= 0 {
+		after = after[i:]
+	}
+	ls := strings.Split(after, "\n")
+	for i, l := range ls {
+		if !strings.HasPrefix(l, "github.com/apache/yunikorn-core/pkg/") || i+1 >= len(ls) {
+			continue
+		}
+		fn := strings.TrimPrefix(l, "github.com/apache/yunikorn-core/")
+		if k := strings.LastIndex(fn, "("); k > 0 {
+			fn = fn[:k]
+		}
+		file := strings.TrimSpace(ls[i+1])
+		if k := strings.Index(file, "/pkg/"); k >= 0 {
+			file = file[k+1:]
+		}
+		if k := strings.LastIndex(file, ":"); k > 0 {
+			file = file[:k]
+		}
+		return fn, file, anchors[file]
+	}
+	return "", "", false
 }
